@@ -2287,10 +2287,10 @@ func (ctx Ctx) maybeDecls(d ast.Decl) []coq.Decl {
 			return nil
 		}
 		var cvs []coq.Decl
+		if d.Body == nil {
+			ctx.unsupported(d, "function declaration with no body")
+		}
 		if !ctx.SkipInterfaces {
-			if d.Body == nil {
-				ctx.unsupported(d, "function declaration with no body")
-			}
 			for _, stmt := range d.Body.List {
 				cvs = ctx.stmtInterface(cvs, stmt)
 			}
